@@ -47,7 +47,7 @@ def _field_bytes_ok(v):
 class Result:
     __slots__ = ("kind", "why", "code", "reason", "version", "headers", "body", "raw_body",
                  "framing", "either", "lenient", "interim", "end", "partial", "coding",
-                 "head_len")
+                 "head_len", "final_start")
 
     def __init__(self):
         self.kind = None  # "ok" | "reject" | "incomplete"
@@ -66,6 +66,7 @@ class Result:
         self.partial = b""  # transfer-decoded body bytes seen before a failure
         self.coding = None  # "gzip" when content decoding was applied
         self.head_len = 0
+        self.final_start = 0  # offset of the message after the last interim response
 
     def fail(self, kind, why):
         self.kind = kind
@@ -372,6 +373,7 @@ def read_response(data, end="fin", method="GET", max_header_size=65536, max_body
     res = Result()
     pos = 0
     while True:
+        res.final_start = pos
         r = _split_lines(data, pos, res, max_header_size)
         if isinstance(r, str):
             if r == "incomplete":
